@@ -256,6 +256,15 @@ func fatalSignature(stage string, fi fatalInfo, icls string) string {
 	if site == "" {
 		site = "no-risor-frame"
 	}
+	if fi.Kind == "concurrent-map-access" {
+		// which of the racing goroutines notices (reader or writer, and in which method) varies from run
+		// to run: the class is the container type
+		if r := receiverOf(site); r != "" {
+			site = r
+		}
+	} else {
+		site = collapse([]string{site})[0]
+	}
 	return "fatal:" + stage + ":" + fi.Kind + "@" + site + ":" + icls
 }
 
@@ -633,16 +642,23 @@ func (k *checker) confirmAndReport(isReplay bool) {
 			cd.Key = id
 			reruns = append(reruns, mon.NewCase(id, "confirm", cd))
 			repOf[id] = s
-			// control variant of scripts: the same script with every cyclic / deep value replaced by a small one
-			if cd.Script != nil && (strings.Contains(cd.InputClass, "cyclic") || strings.Contains(cd.InputClass, "deep")) && i == 0 {
-				ctl := controlOf(*cd.Script)
-				src, _, _ := ctl.render()
-				c2 := cd
-				c2.Src = &src
-				c2.Script = &ctl
-				cid := "control-" + id
-				c2.Key = cid
-				reruns = append(reruns, mon.NewCase(cid, "control", c2))
+			// control variants of scripts: the same script with every cyclic / deep value (or only the deep
+			// ones) replaced by a small acyclic one of the same type
+			if cd.Script != nil && (strings.Contains(cd.InputClass, "cyclic") || strings.Contains(cd.InputClass, "deep")) {
+				kinds := []string{"all"}
+				if cd.InputClass == "cyclic+deep-data" {
+					kinds = append(kinds, "deep")
+				}
+				for _, kind := range kinds {
+					ctl := controlOf(*cd.Script, kind)
+					src, _, _ := ctl.render()
+					c2 := cd
+					c2.Src = &src
+					c2.Script = &ctl
+					cid := "control-" + kind + "-" + id
+					c2.Key = cid
+					reruns = append(reruns, mon.NewCase(cid, "control", c2))
+				}
 			}
 		}
 		if len(g.list) > nrep {
@@ -707,12 +723,20 @@ func (k *checker) confirmAndReport(isReplay bool) {
 		}
 		icls := orig.inputClass()
 		note := ""
-		if c, ok := results["control-"+id]; ok {
+		if c, ok := results["control-all-"+id]; ok {
 			if c.crashed {
 				icls = "independent-of-the-data"
 				note = "\nthe control variant (cyclic / deep values replaced by small acyclic ones) died as well"
 			} else {
 				note = "\nthe control variant (cyclic / deep values replaced by small acyclic ones of the same type) ran normally"
+			}
+		}
+		if c, ok := results["control-deep-"+id]; ok && icls == "cyclic+deep-data" {
+			if c.crashed {
+				icls = "cyclic-data"
+				note += "\nthe variant with only the deep values replaced died as well: the cyclic value is what matters"
+			} else {
+				note += "\nthe variant with only the deep values replaced ran normally"
 			}
 		}
 		if orig.Data.Family == "deep" && orig.Data.Spec != nil {
